@@ -253,7 +253,7 @@ CLAUSES = [  # (key in the job result, what, needs-rational)
 
 
 def run(ctx):
-    broken = common.proof_stage(ctx, ["SoxrModel.Properties.C12", "SoxrModel.Properties.C12Engine"], ["C12", "C12Engine"], exes=("soxrmodel",), gens=())
+    broken = common.proof_stage(ctx, ["SoxrModel.Properties.C12", "SoxrModel.Properties.C12Engine", "SoxrModel.Properties.C12Fir"], ["C12", "C12Engine", "C12Fir"], exes=("soxrmodel",), gens=())
     S.harness()
     S.set_active("C12")
     rng = ctx.rng
